@@ -64,6 +64,7 @@ def w32(src, rename=None, funcs=None, cls=PW):
     src = re.sub(r"\bmd5_word_t\b", "uint32_t", src)
     src = re.sub(r"\bmd5_byte_t\b", "uint8_t", src)
     src = re.sub(r"static_cast\s*<\s*unsigned\s+char\s*>\s*\(", "(uint8_t)(", src)
+    src = re.sub(r"static_cast\s*<\s*unsigned\s+long\s+long\s*>\s*\(", "(unsigned long long)(", src)
     src = src.replace("pms->", "")
     p = cls(tokenize(src), rename, funcs)
     e = p.expr()
@@ -250,7 +251,7 @@ def gen_sha1(src, crypto, w):
     w(f"def sha1Acc (old new : Nat) : Nat := {w32('old + new')}")
 
     body = function_body(src, r"inline\s+void\s+sha1::get_digest\s*\(\s*digest_type\s+digest\s*\)\s*\{")
-    pat = (r"\s*std::size_t\s+bit_count\s*=\s*(?P<bc>[^;]+);\s*process_byte\((?P<first>0x[0-9a-fA-F]+)\)\s*;"
+    pat = (r"\s*(?:std::size_t|unsigned\s+long\s+long)\s+bit_count\s*=\s*(?P<bc>[^;]+);\s*process_byte\((?P<first>0x[0-9a-fA-F]+)\)\s*;"
            r"\s*if\s*\(\s*block_byte_index_\s*>\s*(?P<p0>\d+)\s*\)\s*\{\s*while\s*\(\s*block_byte_index_\s*!=\s*0\s*\)\s*\{\s*process_byte\(0\)\s*;\s*\}"
            r"\s*while\s*\(\s*block_byte_index_\s*<\s*(?P<p1>\d+)\s*\)\s*\{\s*process_byte\(0\)\s*;\s*\}\s*\}"
            r"\s*else\s*\{\s*while\s*\(\s*block_byte_index_\s*<\s*(?P<p2>\d+)\s*\)\s*\{\s*process_byte\(0\)\s*;\s*\}\s*\}"
